@@ -78,7 +78,11 @@ func run(c Case) (res vh.Result) {
 	for i := 0; i < c.NTasks; i++ {
 		hl = append(hl, `"`+hostNames[i%3]+`"`)
 	}
-	fmt.Fprintf(&sb, "name: %s\ndefaults:\n  deploy_timeout: 2s\n  hosts: '[%s]'\nroles:\n", wf, strings.Join(hl, ","))
+	dt := "2s"
+	if c.FailStage == "deploy-noresources" {
+		dt = "8s" // the three deployment attempts, one second apart, are to end before the creation gives up
+	}
+	fmt.Fprintf(&sb, "name: %s\ndefaults:\n  deploy_timeout: %s\n  hosts: '[%s]'\nroles:\n", wf, dt, strings.Join(hl, ","))
 	idx := map[string]int{}
 	for i := 0; i < c.NTasks; i++ {
 		cls := fmt.Sprintf("d%dx%dt%d", os.Getpid(), n, i)
@@ -91,8 +95,14 @@ func run(c Case) (res vh.Result) {
 		if c.FailStage == "template" && i == c.NTasks-1 {
 			name = "t{{ no_such_function(1) }}"
 		}
+		classYAML := simworld.TaskClassYAML(cls, "direct", "")
+		if c.FailStage == "deploy-noresources" {
+			// every task on one machine, each wanting 10 of its 16 cpus: the first fits, the others never will
+			host = "hosta"
+			classYAML = strings.Replace(classYAML, "cpu: 0.1", "cpu: 10", 1)
+		}
 		fmt.Fprintf(&sb, "  - name: \"%s\"\n    constraints:\n      - attribute: machine_id\n        value: %s\n    task:\n      load: %s\n", name, host, cls)
-		w.WriteTask(cls, simworld.TaskClassYAML(cls, "direct", ""))
+		w.WriteTask(cls, classYAML)
 	}
 	for i, h := range c.Hooks {
 		fmt.Fprintf(&sb, "  - name: dh%d\n    call:\n      func: verifprobe.P(\"destroyhook:%d\")\n      trigger: %s%+d\n      timeout: 5s\n      critical: false\n", i, i, h.Trigger, h.Weight)
@@ -555,14 +565,14 @@ func gen(t *rapid.T) Case {
 		c.Hooks = append(c.Hooks, DestroyHook{Trigger: rapid.SampledFrom([]string{"DESTROY", "after_DESTROY"}).Draw(t, "trigger"), Weight: rapid.IntRange(-2, 2).Draw(t, "weight")})
 	}
 	if rapid.IntRange(0, 3).Draw(t, "failing") == 0 {
-		c.FailStage = rapid.SampledFrom([]string{"template", "detector", "deploy-fail", "deploy-noagent", "configure", "hook"}).Draw(t, "stage")
+		c.FailStage = rapid.SampledFrom([]string{"template", "detector", "deploy-fail", "deploy-noagent", "deploy-noresources", "configure", "hook"}).Draw(t, "stage")
 		if c.FailStage == "hook" {
 			c.HookFault = true
 			c.LateW = rapid.IntRange(-2, 1).Draw(t, "lateW")
 			c.FailW = rapid.IntRange(c.LateW, 2).Draw(t, "failW")
 			c.AwaitW = rapid.IntRange(c.FailW+1, 4).Draw(t, "awaitW")
 		}
-		if c.FailStage == "deploy-fail" || c.FailStage == "configure" || c.FailStage == "deploy-noagent" {
+		if c.FailStage == "deploy-fail" || c.FailStage == "configure" || c.FailStage == "deploy-noagent" || c.FailStage == "deploy-noresources" {
 			if c.NTasks < 2 {
 				c.NTasks = 2 // so that other tasks were launched for the environment
 			}
@@ -600,7 +610,7 @@ func TestTeardown(t *testing.T) {
 
 func TestFixed(t *testing.T) {
 	defer simworld.Discard()
-	for _, st := range []string{"template", "detector", "deploy-fail", "deploy-noagent", "configure"} {
+	for _, st := range []string{"template", "detector", "deploy-fail", "deploy-noagent", "deploy-noresources", "configure"} {
 		vh.Fixed(t, prop, "failed-creation-"+st, Case{NTasks: 2, FailStage: st, PendingCall: true}, vh.Confirmed(run))
 	}
 	for _, tg := range []string{"DEPLOYED", "CONFIGURED", "RUNNING", "ERROR"} {
